@@ -24,7 +24,9 @@ MANIFEST_ENTRY = {
 PROPERTY = "C13"
 LEVEL = "proof"
 UNIT_BUDGET_S = 400
-TRUSTED = ["the engine's table of which CPython primitives raise which host exception (DESIGN 2.3 safety obligations)"]
+TRUSTED = ["the engine's table of which CPython primitives raise which host exception (DESIGN 2.3 safety obligations)",
+           "contracts/cklsym.py (thorough tier, library functions written in Checkerlang): the heap built natively by the real interpreter is copied "
+           "object by object into the engine's heap"]
 ASSUMPTIONS = ["host recursion limit, memory and astronomically large iteration counts are excluded",
                "callbacks (key/cmp functions) are abstract: they return an arbitrary int value or raise a language error",
                "natives outside the engine's subset are only pool-enumerated (listed as out-of-subset in the evidence)"]
